@@ -225,6 +225,7 @@ def run(ctx):
                 rops.append(f'sxg.rt.sign {exs(e)} 16 {keys[0]["cert"]} {keys[0]["key"]} {hexs(certurl)} {hexs(vurl)} {date} {expires} {keys[0]["chain"]} {date + 10}')
     for op, r in zip(rops, ctx.go(rops)):
         if r and r.startswith('refused'): continue
+        ctx.full_op[' '.join(op.split(' ')[:7])[:400]] = op
         ctx.records.append((' '.join(op.split(' ')[:7])[:400], r or 'crash', 'same'))
     # 5. length boundaries of the writer
     ops = []
